@@ -17,11 +17,23 @@ pub struct GzipAsset {
     buffer: BufferCursor<Vec<u8>>,
 }
 
+/// Upper bound for the unpacked data. The biggest ZX Spectrum assets are a few hundred KiB;
+/// a small file which unpacks to more than this is not an asset but a decompression bomb
+const MAX_UNPACKED_SIZE: u64 = 8 * 1024 * 1024;
+
 impl GzipAsset {
     pub fn new(file: impl Read) -> Result<Self, io::Error> {
         // ZX Spectrum assets are small enough to use RAM for unpacked data
         let mut buffer = vec![];
-        let _ = GzDecoder::new(file).read_to_end(&mut buffer)?;
+        let unpacked = GzDecoder::new(file)
+            .take(MAX_UNPACKED_SIZE + 1)
+            .read_to_end(&mut buffer)?;
+        if unpacked as u64 > MAX_UNPACKED_SIZE {
+            return Err(io::Error::new(
+                io::ErrorKind::InvalidData,
+                "unpacked asset is too large",
+            ));
+        }
         Ok(Self {
             buffer: BufferCursor::new(buffer),
         })
